@@ -169,6 +169,9 @@ func buildWorld(cc *run.Case, pool []namedStrat, nAssets, nStrats int, repoKind 
 			nIn = r.Range(min(40, sc.LastDays-6), sc.LastDays-6)
 		}
 		nOld := r.Pick(0, 0, 3, 40)
+		if repoKind == "sql" && nIn == 0 {
+			nIn = 1 // a SQL repository cannot hold an asset without rows: it would be an absent asset
+		}
 		sc.InWindow[name], sc.Old[name] = nIn, nOld
 		bars := gen.Bars(r, []string{gen.Walk, gen.Walk2, gen.Ties}[r.Intn(3)], nIn+nOld)
 		// dates: old ones at least 2 days before the window edge, inside ones at
@@ -191,8 +194,11 @@ func buildWorld(cc *run.Case, pool []namedStrat, nAssets, nStrats int, repoKind 
 			}
 		}
 	}
-	if r.Intn(4) == 0 {
-		sc.Missing = []string{"absent-asset"}
+	if r.Intn(3) == 0 {
+		// several absent assets, so that more than one worker takes the failure path at the same time
+		for k := r.Range(1, 5); k > 0; k-- {
+			sc.Missing = append(sc.Missing, fmt.Sprintf("absent-asset-%d", k))
+		}
 	}
 	seen := map[string]bool{}
 	for len(w.mkStrat) < nStrats {
@@ -265,7 +271,11 @@ func c13Run(cc *run.Case, w *btWorld, workers int, raceOnly bool) (string, bool)
 		cc.Viol("", fmt.Sprintf("Backtest (workers=%d, repository=%s): %s", workers, sc.Repo, msg), sc)
 		return "", false
 	}
-	names := append(append([]string(nil), sc.Assets...), sc.Missing...)
+	names := append(append([]string(nil), sc.Missing...), sc.Assets...)
+	for i := range sc.Missing { // spread the absent names over the list
+		j := (i * 7) % len(names)
+		names[i], names[j] = names[j], names[i]
+	}
 	mkStrats := func() []strategy.Strategy {
 		out := make([]strategy.Strategy, len(w.mkStrat))
 		for i, f := range w.mkStrat {
